@@ -1,6 +1,7 @@
 import Failsafe.Adapters
 import Failsafe.Delay
 import Failsafe.Tie.Adapters
+import Failsafe.Conc.Goroutines
 /-!
 # C18 — HTTP and gRPC adapters are transparent and replay requests faithfully
 
@@ -335,6 +336,39 @@ theorem attempt_ctx_done_only_if (a b : Ctx) (own : Nat) (fired : Nat → Bool) 
       · exact Or.inl h
       · exact Or.inr (Or.inl h)
       · exact Or.inr (Or.inr h)
+
+/-! ## the returned response can be read to the end -/
+
+section readable
+open Failsafe.Conc.Goroutines
+
+/-- a response body is readable while the per-attempt context it was obtained under has not been released (net/http behaviour:
+modelled, validated by DIFF with streamed bodies read after the call returned) -/
+def readable (s : HttpSt) (j : Nat) : Bool := s.liveCtxs.contains j
+
+/-- with the source's shape (FACTS: the context is released when the body is closed, not when the attempt returns) the response
+of the last attempt is open and readable after any sequence of attempts, whatever happened to the earlier ones -/
+theorem returned_body_readable (rs : List Bool) (s : HttpSt) (i : Nat) :
+    (httpAttempts ⟨true, true⟩ s i (rs ++ [true])).lastResp = some (i + rs.length) ∧
+    readable (httpAttempts ⟨true, true⟩ s i (rs ++ [true])) (i + rs.length) = true ∧
+    (i + rs.length) ∈ (httpAttempts ⟨true, true⟩ s i (rs ++ [true])).openBodies := by
+  induction rs generalizing s i with
+  | nil =>
+    cases hl : s.lastResp <;> simp [httpAttempts, httpAttempt, hl, readable, closeBody]
+  | cons x xs ih =>
+    have := ih (httpAttempt ⟨true, true⟩ s i x) (i + 1)
+    have e : i + 1 + xs.length = i + (xs.length + 1) := by omega
+    simp only [List.cons_append, httpAttempts, List.length_cons]
+    rw [e] at this
+    exact this
+
+/-- the defective shape (D6: release when the attempt returns): the returned response's context is already gone -/
+theorem body_unreadable_witness : readable (httpAttempts ⟨true, false⟩ {} 0 [true]) 0 = false := by decide
+
+/-- the source has the repaired shape -/
+theorem http_release_shape : Generated.Facts.httpReleaseOnBodyClose = true := by decide
+
+end readable
 
 /-! ## non-vacuity -/
 
